@@ -1,6 +1,7 @@
 (* C03 Log matching, node-local half: every single log keeps consecutive indexes under every
    write (C18).  The cross-node statement is checked by the monitors on all pairs of logs. *)
 From Coq Require Import List NArith.
+From RaftV Require LogMatching.
 From RaftV Require Import Base Types Quorum Progress Tracker Storage Log Raft RawNode QuorumProofs RaftMono RaftRouting NodeProps PreVoteProofs LocalProofs FlowProofs LogProofs ConfProofs.
 Import ListNotations.
 Open Scope N_scope.
@@ -26,3 +27,21 @@ Theorem C03_leader_stamps : forall term es next,
 Proof. exact stamp_preserves. Qed.
 Print Assumptions C03_leader_stamps.
 
+
+(* ---------- protocol level (Spec/LogMatching.v) ---------- *)
+
+(* Log Matching for every reachable state of any network whose logs evolve by the replication
+   rules of the node model (one leadership per term starting from the leader's own log; the
+   leader appends entries of its term at the end; a follower accepts a slice of a leadership's
+   append-only log only on a (prev index, prev term) match, keeps its entries while terms
+   match, truncates at the first mismatch, appends the rest; a crash may lose a suffix).
+   Delay, duplication, reordering and loss are covered: a follower step may use any slice of
+   any leadership's log at any time.  Unbounded nodes, terms, log lengths and steps. *)
+Theorem C03_log_matching_protocol : forall g a b i ea eb,
+  LogMatching.reach g ->
+  nth_error (LogMatching.logs g (LogMatching.KNode a)) i = Some ea ->
+  nth_error (LogMatching.logs g (LogMatching.KNode b)) i = Some eb ->
+  fst ea = fst eb ->
+  firstn (S i) (LogMatching.logs g (LogMatching.KNode a)) = firstn (S i) (LogMatching.logs g (LogMatching.KNode b)).
+Proof. exact LogMatching.log_matching. Qed.
+Print Assumptions C03_log_matching_protocol.
